@@ -551,7 +551,7 @@ def strip_inner_items(text):
         n += 1
 
 
-def extract_block(b: Block, snapshot: str):
+def extract_block(b: Block, snapshot: str, canary=False):
     if getattr(b, 'item', False):
         return extract_item(b, snapshot)
     path = os.path.join(snapshot, b.file)
@@ -701,7 +701,9 @@ def extract_block(b: Block, snapshot: str):
         cb = rustlex.match_close(m2, ob)
         if n in b.loopend:
             ls = text.rfind('\n', 0, cb) + 1
-            inserts.append((ls if not text[ls:cb].strip() else cb, '\n'.join(b.loopend[n]) + '\n'))
+            # deep canary: the end of a loop body that carries a proof script must be reachable with a consistent context
+            deep = ['proof { assert(false); } // DEEP-CANARY loopend %d' % n] if canary else []
+            inserts.append((ls if not text[ls:cb].strip() else cb, '\n'.join(deep + b.loopend[n]) + '\n'))
         if n in b.loopstart:
             inserts.append((ob + 1, '\n' + '\n'.join(b.loopstart[n]) + '\n'))
         if n in b.loops:
@@ -825,7 +827,7 @@ def build_unit(template_path, units_dir, snapshot, canary=False):
                     cur_impl = None
         else:
             try:
-                text, meta = extract_block(p, snapshot)
+                text, meta = extract_block(p, snapshot, canary)
             except ExtractError as e:
                 if p.optional and 'lost anchor' in str(e):
                     out_lines.append('// (optional extraction skipped: %s)' % e)
